@@ -97,9 +97,11 @@ struct LockEngine : Engine {
 		}
 	}
 
+	bool layout_ok = false;
+	void prepare(const Plan &) override { static int ok = -1; if (ok < 0) ok = sut_ticket_layout_ok(); layout_ok = ok == 1; }
 	void setup(const Plan &p) override {
 		memset(throw_armed_t, 0, sizeof throw_armed_t);
-		cfg = p.cfg; cs_entries = 0; aged = p.knobs.count("age") != 0;
+		cfg = p.cfg; cs_entries = 0; aged = p.knobs.count("age") != 0 && layout_ok;
 		memset(in_cs, 0, sizeof in_cs); memset(holder, 0, sizeof holder); memset(ticketed, 0, sizeof ticketed); memset(acquiring, -1, sizeof acquiring);
 		for (auto &q : tickets) q.clear();
 		for (int t = 0; t < MAXT; t++) { priv[t] = (char *)obj_alloc(64, 64); for (int s = 0; s < 4; s++) { model[t][s] = Slot(); slots[t][s] = nullptr; } }
@@ -109,7 +111,7 @@ struct LockEngine : Engine {
 			for (int i = 0; i < nlocks; i++) {
 				locks[i] = obj_alloc(sut_lock_size(ltype), 64);
 				sut_lock_construct(ltype, locks[i]);
-				if (ltype == LT_TICKET && p.knobs.count("age") && sut_lock_size(ltype) == 8) {
+				if (ltype == LT_TICKET && p.knobs.count("age") && layout_ok) {
 					// equivalent to `age` uncontended lock()/unlock() pairs (both counters advance together); relies on
 					// the lock being two 32-bit counters, which is checked through its size
 					uint32_t a = (uint32_t)p.knob("age"); uint32_t both[2] = {a, a};
